@@ -40,6 +40,9 @@ pub struct SchedReport {
     pub interleaving_digest: u64,
     pub capped: bool,
     pub stuck: bool,
+    /// yields at which the node could not proceed (a shimmed lock was held by a parked node)
+    #[serde(default)]
+    pub blocked_yields: u64,
 }
 
 struct St {
@@ -73,6 +76,16 @@ pub fn yield_point(site: &'static str) {
     let ctx = NODE.with(|n| n.borrow().clone());
     if let Some((sched, id)) = ctx {
         sched.yield_now(id, site);
+    }
+}
+
+/// Installed as vrl's "blocked" hook: returns true if another node ran in the meantime (retry), false if the
+/// caller is not a scheduled node or nobody else can run (block for real).
+pub fn yield_blocked(site: &'static str) -> bool {
+    let ctx = NODE.with(|n| n.borrow().clone());
+    match ctx {
+        Some((sched, id)) => sched.yield_blocked(id, site),
+        None => false,
     }
 }
 
@@ -135,7 +148,7 @@ impl Sched {
     }
 
     /// Decide who runs after decision point `site`, reached by `cur` (None = start / cur finished).
-    fn decide(st: &mut St, cur: Option<usize>, site: &'static str) -> Option<usize> {
+    fn decide(st: &mut St, cur: Option<usize>, site: &'static str, must_switch: bool) -> Option<usize> {
         let runnable: Vec<usize> = (0..st.n).filter(|i| !st.finished[*i]).collect();
         if runnable.is_empty() {
             return None;
@@ -148,7 +161,32 @@ impl Sched {
             st.report.capped = true;
         }
         let keep = cur.filter(|c| !st.finished[*c]);
-        let choice = match &st.policy {
+        // `must_switch`: the current node cannot proceed (it found a lock held by a parked node); somebody
+        // else has to run, whatever the policy or the yield cap say
+        let others: Vec<usize> = runnable.iter().copied().filter(|i| Some(*i) != cur).collect();
+        if must_switch && others.is_empty() {
+            return cur;
+        }
+        let choice = if must_switch {
+            match &st.policy {
+                Policy::Explicit { switches } => {
+                    let want = switches.iter().find(|(d, _)| *d == dn).map(|(_, n)| *n as usize);
+                    match want {
+                        Some(w) if others.contains(&w) => w,
+                        _ => others[0],
+                    }
+                }
+                Policy::Pct { .. } => {
+                    if let Some(c) = keep {
+                        st.prio[c] = st.next_low_prio;
+                        st.next_low_prio = st.next_low_prio.saturating_sub(1);
+                    }
+                    *others.iter().max_by_key(|i| st.prio[**i]).unwrap()
+                }
+                _ => others[st.rng.below(others.len())],
+            }
+        } else {
+        match &st.policy {
             Policy::Explicit { switches } => {
                 let want = switches.iter().find(|(d, _)| *d == dn).map(|(_, n)| *n as usize);
                 match want {
@@ -187,6 +225,7 @@ impl Sched {
                 }
                 *runnable.iter().max_by_key(|i| st.prio[**i]).unwrap()
             }
+        }
         };
         if Some(choice) != cur {
             st.report.switches.push((dn, choice as u8));
@@ -218,7 +257,7 @@ impl Sched {
         let mut st = self.lock();
         debug_assert_eq!(st.current, Some(id));
         st.report.yields += 1;
-        let next = Self::decide(&mut st, Some(id), site);
+        let next = Self::decide(&mut st, Some(id), site, false);
         match next {
             Some(n) if n != id => {
                 st.current = Some(n);
@@ -231,11 +270,31 @@ impl Sched {
         }
     }
 
+    /// The calling node cannot proceed until some other node has run. Returns false if there is nobody
+    /// else to run (the caller then blocks for real; a genuine deadlock ends up at the watchdog).
+    pub fn yield_blocked(&self, id: usize, site: &'static str) -> bool {
+        let mut st = self.lock();
+        st.report.yields += 1;
+        st.report.blocked_yields += 1;
+        let next = Self::decide(&mut st, Some(id), site, true);
+        match next {
+            Some(n) if n != id => {
+                st.current = Some(n);
+                self.cvs[n].notify_one();
+                while st.current != Some(id) {
+                    st = self.cvs[id].wait(st).unwrap_or_else(|e| e.into_inner());
+                }
+                true
+            }
+            _ => false,
+        }
+    }
+
     fn finish(&self, id: usize) {
         let mut st = self.lock();
         st.finished[id] = true;
         st.in_run[id] = None;
-        let next = Self::decide(&mut st, Some(id), "finish");
+        let next = Self::decide(&mut st, Some(id), "finish", false);
         match next {
             Some(n) => {
                 st.current = Some(n);
@@ -255,7 +314,7 @@ impl Sched {
         {
             let mut st = self.lock();
             if !st.done {
-                let first = Self::decide(&mut st, None, "start");
+                let first = Self::decide(&mut st, None, "start", false);
                 st.current = first;
                 if let Some(f) = first {
                     self.cvs[f].notify_one();
